@@ -447,7 +447,7 @@ static void mx_gen(Ctx& ctx) {
                     ctx.eval(Json::object().set("form", k.form).set("op", k.op).set("lt", k.lt).set("rt", k.rt).set("n", n).set("vcls", vcls)
                                .set("seed", case_seed(ctx.seed, key_of(ci, n, vcls, rep))));
                 }
-    ctx.rc("sampled", budget(ctx, 1500000, 30000000), [&]() {
+    ctx.rc("sampled", budget(ctx, 1500000, 12000000), [&]() {
         const Combo& k = combos[size_t(pick(0, int(combos.size()) - 1))];
         int n = pick(0, 3) == 0 ? pick_log(65, 10000) : pick(0, 64);
         return Json::object().set("form", k.form).set("op", k.op).set("lt", k.lt).set("rt", k.rt).set("n", n).set("vcls", pick(0, V_NCLS - 1)).set("seed", (long long)seed64());
@@ -904,7 +904,7 @@ static void pg_gen(Ctx& ctx) {
                     if (!ctx.mine()) continue;
                     ctx.eval(Json::object().set("depth", depth).set("n", n).set("mode", mode).set("seed", case_seed(ctx.seed, key_of(depth, n, mode, rep, 3))));
                 }
-    ctx.rc("random", budget(ctx, 1200000, 20000000), [&]() {
+    ctx.rc("random", budget(ctx, 1200000, 8000000), [&]() {
         int depth = pick(1, 6);
         int n = pick(0, 7) == 0 ? pick_log(65, 2000) : pick(0, 64);
         return Json::object().set("depth", depth).set("n", n).set("mode", pick(0, 2)).set("seed", (long long)seed64());
@@ -1162,7 +1162,7 @@ static void sc_gen(Ctx& ctx) {
                            .set("seed", case_seed(ctx.seed, key_of(11, tl, nargs, code))));
             }
         }
-    ctx.rc("sampled", budget(ctx, 900000, 15000000), [&]() {
+    ctx.rc("sampled", budget(ctx, 900000, 6000000), [&]() {
         int kind = pick(0, SK_N - 1);
         Json j = Json::object().set("kind", kind).set("tl", pick(0, 1));
         int n = pick(0, 3) == 0 ? pick_log(65, 10000) : pick(0, 64);
